@@ -12,10 +12,60 @@ let put_mat (m : float mat) =
 let put_vec (v : float vec) =
   if not (wf_vec v) then put_w "MODEL_NOT_WF"
   else begin put_w "V"; put_i (int_of_nat v.vdim); List.iter put_f v.vcomps end
-let rd_vec r = vec_of (list r)
 (* a matrix argument; when its construction already fails the whole case has that outcome *)
-let rd_mat r = match mat_of_entries (table r) with
-  | Ok m -> m | Exit -> raise (Ctor "EXIT") | OOB -> raise (Ctor "OOB") | Fuel -> raise (Ctor "FUEL")
+let ok_or_raise = function Ok m -> m | Exit -> raise (Ctor "EXIT") | OOB -> raise (Ctor "OOB") | Fuel -> raise (Ctor "FUEL")
+let plain_vec r = vec_of (list r)
+let plain_mat r = ok_or_raise (mat_of_entries (table r))
+(* `hist <op> ...`: every matrix / vector argument is followed by `k step_1 .. step_k`, a call history applied to the
+   freshly constructed object before the operation sees it (grammar: checks/C04.py; C++ side: harness/C04.cpp) *)
+let hist = ref false
+let mat_step r (a : float mat) : float mat =
+  match word r with
+  | "rs" -> let p = integer r in let q = integer r in m_resize fops a (n p) (n q)
+  | "as" -> let p = integer r in let q = integer r in let e = num r in m_assign a (n p) (n q) e
+  | "dr" -> let i = integer r in ok_or_raise (delete_row a (n i))
+  | "dc" -> let i = integer r in ok_or_raise (delete_column a (n i))
+  | "st" -> let i = integer r in let j = integer r in let x = num r in ok_or_raise (m_set a (n i) (n j) x)
+  | "cp" -> m_copy a
+  | "eq" -> let b = m_assign_from (mat_fill (n 1) (n 1) 7.0) a in
+            let c = m_assign_from (mat_fill (n 1) (n 1) 3.0) b in m_assign_from a c
+  | "se" -> m_assign_from a a
+  | "pa" -> let b = plain_mat r in ok_or_raise (m_add_assign fops a b)
+  | "ma" -> let b = plain_mat r in ok_or_raise (m_sub_assign fops a b)
+  | "sa" -> ok_or_raise (m_add_assign fops a a)
+  | "ss" -> ok_or_raise (m_sub_assign fops a a)
+  | "pl" -> let b = plain_mat r in m_assign_from a (ok_or_raise (m_op_plus fops a b))
+  | "mi" -> let b = plain_mat r in m_assign_from a (ok_or_raise (m_op_minus fops a b))
+  | "tr" -> m_assign_from a (ok_or_raise (transpose fops a))
+  | "ms" -> let x = num r in m_assign_from a (ok_or_raise (m_op_mul_s fops a x))
+  | "dv" -> let x = num r in m_assign_from a (ok_or_raise (m_op_div fops a x))
+  | "z" -> let p = integer r in let q = integer r in m_assign_from a (m_zero fops (n p) (n q))
+  | "df" -> m_assign_from a (m_default fops)
+  | o -> raise (Ctor ("MODELERR unknown_step_" ^ o))
+let vec_step r (v : float vec) : float vec =
+  match word r with
+  | "rs" -> let p = integer r in v_resize fops v (n p)
+  | "as" -> let p = integer r in let e = num r in v_assign v (n p) e
+  | "st" -> let i = integer r in let x = num r in ok_or_raise (v_set v (n i) x)
+  | "cp" -> v_copy v
+  | "eq" -> let b = v_assign_from (vfill (n 1) 7.0) v in
+            let c = v_assign_from (vfill (n 5) 3.0) b in v_assign_from v c
+  | "se" -> v_assign_from v v
+  | "pa" -> let b = plain_vec r in ok_or_raise (vadd_assign fops v b)
+  | "ma" -> let b = plain_vec r in ok_or_raise (vsub_assign fops v b)
+  | "sa" -> ok_or_raise (vadd_assign fops v v)
+  | "ss" -> ok_or_raise (vsub_assign fops v v)
+  | "pl" -> let b = plain_vec r in v_assign_from v (ok_or_raise (vadd fops v b))
+  | "mi" -> let b = plain_vec r in v_assign_from v (ok_or_raise (vsub fops v b))
+  | "ms" -> let x = num r in v_assign_from v (vscale fops v x)
+  | "sm" -> let x = num r in v_assign_from v (s_mul_v fops x v)
+  | "dv" -> let x = num r in v_assign_from v (vdivs fops v x)
+  | "z" -> let p = integer r in v_assign_from v (v_zero fops (n p))
+  | "df" -> v_assign_from v (v_default fops)
+  | o -> raise (Ctor ("MODELERR unknown_step_" ^ o))
+let rec steps f r a k = if k <= 0 then a else steps f r (f r a) (k - 1)
+let rd_mat r = let a = plain_mat r in if !hist then (let k = integer r in steps mat_step r a k) else a
+let rd_vec r = let v = plain_vec r in if !hist then (let k = integer r in steps vec_step r v k) else v
 (* block given as  r c e_11 ... e_rc : Matrix(r,c,0.0) then assigned entry by entry *)
 let rd_block r =
   let rr = integer r in let cc = integer r in
@@ -29,7 +79,10 @@ let vv f r = let u = rd_vec r in let v = rd_vec r in put_res put_vec (f fops u v
 
 let handler r =
   try
-  match word r with
+  hist := false;
+  let op = word r in
+  let op = if op = "hist" then (hist := true; word r) else op in
+  match op with
   | "m_plus" -> mm "" m_plus r
   | "m_minus" -> mm "" m_minus r
   | "m_op_plus" -> mm "" m_op_plus r
@@ -73,6 +126,9 @@ let handler r =
   | "return_row" -> let a = rd_mat r in let i = integer r in put_res put_vec (return_row a (n i))
   | "return_column" -> let a = rd_mat r in let i = integer r in put_res put_vec (return_column fops a (n i))
   | "m_eq" -> let a = rd_mat r in let b = rd_mat r in put_b (m_eq fops a b)
+  | "v_at" -> let v = rd_vec r in let i = integer r in put_res put_f (v_at v (n i))
+  | "m_show" -> let a = rd_mat r in put_mat a
+  | "v_show" -> let v = rd_vec r in put_vec v
   | "m_at" -> let a = rd_mat r in let i = integer r in let j = integer r in put_res put_f (m_at a (n i) (n j))
   | "identity" -> let k = integer r in put_mat (identity fops (n k))
   | "mat_diag" -> let d = list r in put_mat (mat_diag fops d)
